@@ -707,6 +707,40 @@ def gen_agg_daily(ctx: Ctx):
     return lines
 
 
+# every kind of calendar year: divisible by 400 (leap), by 100 only (common), by 4 only (leap), common; plus one random
+BOUNDARY_YEARS = [1600, 1900, 2000, 2004, 2020, 2023, 2100, 2400]
+
+
+def gen_agg_daily_boundaries(ctx: Ctx):
+    """structured, not random: for every kind of year and every month end, a short fully observed daily series that
+    straddles the boundary (last 4 days of the month + first 3 of the next), aggregated to every regular frequency with
+    methods whose result depends on each member day (sum / mean / prod), on the last and on the first member; plus, per
+    year, the whole of February..March aggregated to MONTHLY. A wrong month length or leap rule moves a day across a
+    period boundary and changes these results."""
+    rng = ctx.rng.fork("agg-daily-boundaries")
+    lines = []
+    years = BOUNDARY_YEARS + [rng.randint(2, 9990)]
+    k = 0
+    for y in years:
+        leap = y % 4 == 0 and (y % 100 != 0 or y % 400 == 0)
+        for mth in range(1, 13):
+            nxt = dt.date(y + 1, 1, 1) if mth == 12 else dt.date(y, mth + 1, 1)
+            start = nxt.toordinal() - 4
+            for lo in REG:
+                m = ["sum", "last", "mean", "first", "max", "prod", "min"][k % 7]
+                k += 1
+                rows = gen_rows(rng, 7, 1, 0.0, "pow2" if m == "prod" else "dyadic")
+                if m in ("max", "min"):     # strictly monotone so that the extreme is the day next to the boundary
+                    rows = [[float(i + 1) * (1 if m == "max" else -1)] for i in range(7)]
+                lines.append(ser_line("agg", "D", lo, start, [m, "0", "-"], 1, rows))
+                ctx.count(f"agg:boundary:{'leap' if leap else 'common'}{'-century' if y % 100 == 0 else ''}")
+        feb1 = dt.date(y, 2, 1).toordinal()
+        n = dt.date(y, 4, 1).toordinal() - feb1
+        for m in ("sum", "last", "mean"):
+            lines.append(ser_line("agg", "D", "M", feb1, [m, "0", "-"], 1, gen_rows(rng, n, 1, 0.0)))
+    return lines
+
+
 def gen_agg_select(ctx: Ctx):
     rng = ctx.rng.fork("agg-select")
     lines = []
@@ -968,6 +1002,7 @@ def run(ctx: Ctx):
         ctx.count("corpus", len(corpus))
     run_series_stream(ctx, "agg-regular", gen_agg_regular(ctx))
     run_series_stream(ctx, "agg-daily", gen_agg_daily(ctx))
+    run_series_stream(ctx, "agg-daily-boundaries", gen_agg_daily_boundaries(ctx))
     run_series_stream(ctx, "agg-select", gen_agg_select(ctx))
     run_series_stream(ctx, "malformed", gen_malformed(ctx))
     run_series_stream(ctx, "disaggregate", gen_dis(ctx))
@@ -984,7 +1019,7 @@ def search(ctx: Ctx, seeds):
     lines = [c["line"] for c in seeds if isinstance(c, dict) and "line" in c]
     run_lines(ctx, lines, "seeds", with_model=False)
     ctx.tier = "thorough"
-    for gen in (gen_agg_regular, gen_agg_daily, gen_agg_select, gen_dis, gen_dis_daily, gen_rt):
+    for gen in (gen_agg_regular, gen_agg_daily, gen_agg_daily_boundaries, gen_agg_select, gen_dis, gen_dis_daily, gen_rt):
         run_series_stream(ctx, "search", gen(ctx), with_model=False)
     run_arip_stream(ctx, gen_arip(ctx, 300), with_model=False)
 
